@@ -25,6 +25,7 @@ const (
 	abKill                         // thread killed at path end
 	abDeadlock
 	abUnknown // solver returned unknown on a feasibility query needed to continue
+	abBound   // a declared bound of the harness was reached (e.g. number of random draws): path cut, outside the claim
 )
 
 type pathAbort struct {
@@ -126,6 +127,7 @@ type Config struct {
 	Schedules    bool
 	RaceDetect   bool
 	MaxPreempt   int // schedule exploration: bound on preemptive context switches per path
+	MaxRand      int // bound on math/rand draws per path (0 = unbounded); paths beyond it are cut and counted as "bounded"
 	MaxSteps     int64
 	QueryTimeout int // ms
 	AllowExit    bool
@@ -589,6 +591,7 @@ func (i *interpreter) runPath(fn *ssa.Function, prefix []Decision) (res PathResu
 	i.nondetCount = 0
 	i.lnArgs, i.expArgs = nil, nil
 	i.axiomSeen = nil
+	i.randDraws = 0
 	i.resetThreads()
 	defer func() {
 		r := recover()
@@ -628,6 +631,8 @@ func (i *interpreter) runPath(fn *ssa.Function, prefix []Decision) (res PathResu
 				res.Status = "deadlock"
 			case abUnknown:
 				res.Status = "unknown"
+			case abBound:
+				res.Status = "bounded"
 			case abMerge:
 				res.Status = "unsupported"
 				p.msg = "stray merge abort: " + p.msg
